@@ -41,6 +41,8 @@ use self::ip::{IpNetworkChangeSender, IpTransports, IpTransportsSender};
 pub(crate) use self::relay::{
     HomeRelayWatch, RelayActorConfig, RelayConnectionState, RelayTransport,
 };
+#[cfg(feature = "verif-hooks")]
+pub(crate) use self::relay::VerifRelayActor;
 
 /// How many times all transports may error on `poll_recv` before we give up.
 ///
